@@ -286,3 +286,57 @@ func SemverIdent(s string) bool {
 	}
 	return true
 }
+
+// ---------------------------------------------------------------- text formats
+
+// Lines splits on '\n'; a trailing newline does not yield an empty last line.
+func Lines(s string) []string {
+	var out []string
+	start := 0
+	for i := 0; i < len(s); i++ {
+		if s[i] == '\n' {
+			out = append(out, s[start:i])
+			start = i + 1
+		}
+	}
+	if start < len(s) {
+		out = append(out, s[start:])
+	}
+	return out
+}
+
+// Field822 returns the (unfolded, first-line) value of a "Key: value" field of a deb822 stanza.
+func Field822(text, key string) (string, bool) {
+	for _, l := range Lines(text) {
+		if len(l) > len(key)+1 && l[:len(key)] == key && l[len(key)] == ':' {
+			v := l[len(key)+1:]
+			for len(v) > 0 && v[0] == ' ' {
+				v = v[1:]
+			}
+			return v, true
+		}
+	}
+	return "", false
+}
+
+// KV returns all values of "key = value" lines (apk / archlinux .PKGINFO).
+func KV(text, key string) []string {
+	var out []string
+	for _, l := range Lines(text) {
+		if len(l) >= len(key)+3 && l[:len(key)] == key && l[len(key):len(key)+3] == " = " {
+			out = append(out, l[len(key)+3:])
+		}
+	}
+	return out
+}
+
+const hexdigits = "0123456789abcdef"
+
+// Hex renders bytes as lower-case hexadecimal.
+func Hex(b []byte) string {
+	out := make([]byte, 0, 2*len(b))
+	for _, c := range b {
+		out = append(out, hexdigits[c>>4], hexdigits[c&15])
+	}
+	return string(out)
+}
